@@ -304,7 +304,11 @@ fn random_strategy() -> impl Strategy<Value = String> {
         0..24,
     )
     .prop_map(|v| v.into_iter().collect::<String>());
-    prop_oneof![4 => versionish, 1 => huge, 3 => soup]
+    // long strings that do parse: a number spelled with many digits (leading zeros, a bare leading point, tiny and huge values),
+    // a letter and a long revision - total lengths of 20..170 characters, every length around 32 / 64 / 128 among them
+    let long_valid = (prop_oneof![Just(""), Just("0"), Just("00"), Just("7")], 0usize..70, "[0-9]{1,9}", "[A-Za-z]", prop_oneof![Just(String::new()), "[0-9]{1,19}".prop_map(|s: String| s), (0usize..40, "[0-9]{1,9}").prop_map(|(z, d)| format!("{}{d}", "0".repeat(z)))])
+        .prop_map(|(int, zeros, digits, letter, rev)| format!("{int}.{}{digits}{letter}{rev}", "0".repeat(zeros)));
+    prop_oneof![4 => versionish, 1 => huge, 3 => soup, 2 => long_valid]
 }
 
 // --- wire forms through the VER packet ---------------------------------------------------
